@@ -251,26 +251,35 @@ impl std::fmt::Write for Bounded {
 }
 
 const DISPLAY_CAP: usize = 4 << 20;
+/// CPU seconds of the rendering thread (not wall-clock: the bound must not depend on machine load)
 const DISPLAY_SECS: f64 = 10.0;
+/// the lock-discipline leg pays a scheduling point per mutex operation: its budget is scaled
+pub static DISPLAY_SECS_SCALE: std::sync::atomic::AtomicU64 = std::sync::atomic::AtomicU64::new(1);
+fn display_secs() -> f64 {
+    DISPLAY_SECS * DISPLAY_SECS_SCALE.load(std::sync::atomic::Ordering::Relaxed) as f64
+}
+/// largest rendering seen by this worker (bytes), reported as a gauge
+static MAX_DISPLAY: std::sync::atomic::AtomicU64 = std::sync::atomic::AtomicU64::new(0);
 
 /// Render with `{}` and `{:?}` into a byte-counting sink that refuses after 4 MiB.
 /// Returns Err(key, message) when the rendering is not bounded.
 fn check_display<T: std::fmt::Display + std::fmt::Debug>(what: &str, x: &T) -> Result<(), (String, String)> {
     for (mode, dbg) in [("display", false), ("debug", true)] {
-        let t0 = std::time::Instant::now();
+        let t0 = crate::sup::thread_cpu_secs();
         let mut b = Bounded { len: 0, cap: DISPLAY_CAP, overflow: false, head: String::new() };
         let r = if dbg { write!(b, "{:?}", x) } else { write!(b, "{}", x) };
-        let dt = t0.elapsed().as_secs_f64();
+        let dt = crate::sup::thread_cpu_secs() - t0;
+        MAX_DISPLAY.fetch_max(b.len as u64, std::sync::atomic::Ordering::Relaxed);
         if b.overflow || r.is_err() {
             return Err((
                 format!("{}:{}:output-exceeds-4MiB", what, mode),
                 format!("{} of {} wrote more than {} bytes (starts: {})", mode, what, DISPLAY_CAP, b.head),
             ));
         }
-        if dt > DISPLAY_SECS {
+        if dt > display_secs() {
             return Err((
                 format!("{}:{}:slow", what, mode),
-                format!("{} of {} took {:.1} s for {} bytes", mode, what, dt, b.len),
+                format!("{} of {} took {:.1} CPU s for {} bytes", mode, what, dt, b.len),
             ));
         }
     }
@@ -660,12 +669,13 @@ fn run_history(plan: &Plan, order: &[usize], has_parent: &[bool]) -> Hist {
                     hist.observations += 1;
                     let a = node.arrow();
                     let mut b = Bounded { len: 0, cap: DISPLAY_CAP, overflow: false, head: String::new() };
-                    let t0 = std::time::Instant::now();
+                    let t0 = crate::sup::thread_cpu_secs();
                     let r = write!(b, "{}", a);
-                    if (b.overflow || r.is_err() || t0.elapsed().as_secs_f64() > DISPLAY_SECS) && hist.display_viol.is_none() {
+                    MAX_DISPLAY.fetch_max(b.len as u64, std::sync::atomic::Ordering::Relaxed);
+                    if (b.overflow || r.is_err() || crate::sup::thread_cpu_secs() - t0 > display_secs()) && hist.display_viol.is_none() {
                         hist.display_viol = Some((
                             "Arrow:display:unbounded".into(),
-                            format!("Display of an arrow wrote > {} bytes or took > {} s", DISPLAY_CAP, DISPLAY_SECS),
+                            format!("Display of an arrow wrote > {} bytes or took > {} CPU s", DISPLAY_CAP, display_secs()),
                         ));
                     }
                     let _ = a.source.final_data();
@@ -837,8 +847,13 @@ fn exec(plan: &Plan, st: &mut Stats) -> Result<(), Viol> {
                 msg: format!("order {:?}: library: {}; model: {}", order, why_lib(), why_model(m)),
             });
         }
-        if h.accepted {
-            // soundness (local rule) on every node we have an arrow for — also in relaxed histories
+        // After a failed (injected) construction the context holds the part of the failed node's
+        // equations that was applied before the clash: a constraint set without a solution, about
+        // which neither the property nor any destructive unifier (the reference model included)
+        // promises anything. Such histories keep the crash/hang/bounded-rendering checks only.
+        // (False alarm 9 in DESIGN.md: the local-rule check used to run here as well.)
+        if h.accepted && !relaxed {
+            // soundness (local rule) on every node we have an arrow for
             for i in 0..n {
                 let me = match h.commit_arrows[i].as_ref().or(h.arrows[i].as_ref()) {
                     Some(a) => a,
@@ -881,8 +896,8 @@ fn exec(plan: &Plan, st: &mut Stats) -> Result<(), Viol> {
                     }
                 }
             }
-            // principality against the model (full oracle only)
-            if !relaxed {
+            // principality against the model
+            {
                 for i in 0..n {
                     if !m.reachable[i] {
                         continue;
@@ -1322,6 +1337,7 @@ impl C04 {
         let r = guard(|| exec(plan, &mut st));
         let nontrivial = (st.shared || st.binary) && st.orders_distinct >= 2;
         out.eval(plan.hash(), nontrivial);
+        out.gauge_max("max_display_bytes", MAX_DISPLAY.load(std::sync::atomic::Ordering::Relaxed));
         out.count("histories", st.histories);
         out.count("histories_accepted", st.accepted);
         out.count("histories_rejected_by_constructor", st.rejected_clash);
